@@ -34,9 +34,11 @@ theorem cast_negative_is_far_future (x : Int) (hx : x < 0) (hlo : -(2 ^ 63 : Int
   omega
 
 /-- Such a guarded update is rejected with the drift error in its very first step, and the revision it
-consumed is reported to the sequencer (slot filled): it cannot wedge the node. -/
+consumed is reported to the sequencer (slot filled): it cannot wedge the node. The drift path is taken by
+every expectation at or above the revision the request is dealt (`dealt + 1 ≤ exp`; backend.go `deal`:
+`rev <= prevRevision`), the boundary case included. -/
 theorem far_future_update_rejected_and_resolved (g : G) (id : Nat) (k v : Bytes) (exp : Nat)
-    (hfree : g.client id = none) (hexp : g.dealt + 1 < exp) :
+    (hfree : g.client id = none) (hexp : g.dealt + 1 ≤ exp) :
     let g' := run g [.begin id (.update k v exp), .step id .none]
     g'.client id = none ∧ (∃ d ∈ g'.done, d.id = id ∧ d.res = .error .drift ∧ d.rev = g.dealt + 1) ∧
     (∃ w ∈ g'.slots, w.rev = g.dealt + 1 ∧ w.valid = false) := by
@@ -55,7 +57,7 @@ theorem far_future_update_rejected_and_resolved (g : G) (id : Nat) (k v : Bytes)
 
 /-- Same for a guarded delete of an existing key. -/
 theorem far_future_delete_rejected_and_resolved (g : G) (id : Nat) (k : Bytes) (exp : Nat)
-    (hfree : g.client id = none) (hexp : g.dealt + 1 < exp) (v : Bytes) (m : Nat)
+    (hfree : g.client id = none) (hexp : g.dealt + 1 ≤ exp) (v : Bytes) (m : Nat)
     (hfound : bget g.cfg g.store k 0 = .found v m) :
     let g' := run g [.begin id (.delete k exp), .step id .none, .step id .none]
     g'.client id = none ∧ (∃ d ∈ g'.done, d.id = id ∧ d.res = .error .drift ∧ d.rev = g.dealt + 1) ∧
